@@ -106,8 +106,16 @@ func Queue.Poll
   ghost after call NewTimer: timerlive = true
   ghost after call CleanupTimer: timerlive = false
   ghost before select: assert timerlive
+  -- a poller whose in-flight element is cancelled goes on to the next element - also during a graceful shutdown: it
+  -- never returns (empty-handed) straight from the cancel case (an executor worker takes the empty value for "drained")
+  ghost local dropped Bool          -- the in-flight element was cancelled and the heap has not been looked at since (ghost)
+  ghost at entry: dropped = false
+  ghost after select #1: dropped = (selindex == 1)
+  ghost after select #2: dropped = (selindex == 0)
+  ghost after acquire: dropped = false          -- back at the head of the polling loop: the heap is looked at again
+  ghost at return: assert !dropped
   loop 1 invariant t != nil
-  loop 2 invariant t != nil
+  loop 2 invariant t != nil && !dropped
 
 -- the two orders of the timed priority queue: by instant (seconds, then nanoseconds - for every instant, also those
 -- outside the range an int64 of nanoseconds can express), ascending resp. descending; equal instants compare 0
